@@ -371,6 +371,12 @@ func (c *Ctx) extractPeephole(fd *ast.FuncDecl, sw *ast.SwitchStmt) (*peephole, 
 						rw.Narrow = append(rw.Narrow, l.String()+" != "+rt.String())
 						continue
 					}
+					// X != -X excludes the two operands that are their own negation: 0 and the
+					// smallest integer
+					if isNegOf(l, rt) || isNegOf(rt, l) {
+						rw.Narrow = append(rw.Narrow, l.String()+" != "+rt.String())
+						continue
+					}
 				}
 				if !isB || be.Op != token.EQL {
 					okSide = false
@@ -512,4 +518,12 @@ func codeOffsetsOf(e ast.Expr, in *Interp, st *State) map[int64]bool {
 		return true
 	})
 	return out
+}
+
+// isNegOf: b is the negation of the operand field a.
+func isNegOf(a, b *T) bool {
+	if a.Op != "field" {
+		return false
+	}
+	return b.String() == "<-"+a.String()+">" || b.String() == "-"+a.String()
 }
